@@ -75,18 +75,29 @@ def check_C14(ctx):
     for t_ in ['x eq "abc"', 'x co "b" and k eq 1', 'k eq 1 and n.x sw "a"', 'x in ["abc", "q"]', 'x eq 1.0.0', 'x gt 1']:
         for a_ in (('strreent', b'abc'), ('strreent', b'1.0.0')):
             cs.eval(t_, obj({'x': a_, 'k': I(1), 'n': {'x': a_}}), 're-entrant-stringer')
+    # a value whose String() takes 2.2 s: every entry point waits for it and gives the same answer
+    cs.eval('x eq "abc" and k eq 1', obj({'x': ('strslow', b'abc'), 'k': I(1)}), 'slow-value')
+    # histories in which the caller changes ONE map value in place between the calls: after every call the driver also asks both Evaluate
+    # functions about that very map value (`h3`)
+    for text_ in ['x eq 1', 'x gt 1 or y eq 2', 'a.b eq 1', 's co "a" and x pr', 'x in [1, 2]']:
+        seqs_ = [[obj({'x': I(1), 'a': {'b': I(1)}, 's': S('a')}), obj({'x': I(2), 'a': {'b': I(2)}, 's': S('b')}), obj({'x': I(1), 'a': {'b': I(1)}, 's': S('xa')})],
+                 [obj({'x': I(2), 'y': I(2)}), obj({'x': I(0), 'y': I(3)}), obj({'x': I(5), 'y': I(3)})]]
+        for seq_ in seqs_:
+            cs.hist(text_, [('p', seq_[0]), ('q', seq_[1]), ('q', seq_[2]), ('q', seq_[0]), ('d',)], 'inplace-entry-points')
     # every prefix of sentences whose left operand decides the rule (a parse that gives up quietly would evaluate the partial tree)
     for t_ in scale.sentence_prefixes(ctx):
         for o_ in (obj({'y': I(1), 'x': I(2), 'z': I(1)}), obj({'y': I(2)})):
             cs.eval(t_, o_, 'sentence-prefixes')
-    for t_ in ['x eq "abc"', 'x co "b" and k eq 1', 'x eq "abc" or zz pr', 'n.x sw "a" and x ew "c"']:
+    for t_ in ['x eq "abc"', 'x co "b" and k eq 1', 'x eq "abc" or zz pr', 'n.x sw "a" and x ew "c"', 'x in ["abc", "abcd"] and y in ["q"]', 'y in ["q"] and x in ["abc", "abcd"]',
+               'x in ["abc", "abcd"] and y in ["zz"] or x in ["abcd", "abc"]', 'x in ["abc"] and k in [1, 2] and y in ["q", "r"]', 'not (x in ["zz"]) and y in ["q"] and x in ["abcd", "abc"]']:
         for a_ in (('strsame', b'abc'), ('strsame', b'abcd')):
-            cs.eval(t_, obj({'x': a_, 'k': I(1), 'n': {'x': a_}}), 're-entrant-same-rule')
+            cs.eval(t_, obj({'x': a_, 'k': I(1), 'n': {'x': a_}, 'y': S('q')}), 're-entrant-same-rule')
     for t_ in [b'x eq "caf\xe9"', b'x eq "\xff"', b'x co "\xc3"', b'x eq "a\xe9b" or y eq 1', b'x in ["\xe9", "b"]', b'x eq "\xed\xa0\x80"', b'x eq "\xc3\xa9"', b'x\xe9 eq 1', b'x eq 1 \xe9']:
         for o_ in (obj({'x': S(b'caf\xe9'), 'y': I(1)}), obj({'x': S(b'\xff')}), obj({'x': S('caf\ufffd')}), obj({'x': S('é')})):
             cs.eval(t_, o_, 'invalid-utf8-literal')
     res = ctx.run(cs)
-    ctx.compare(cs.cases, res, ['verdict', 'err', 'ev3'], nontrivial=lambda c, mo: True)
+    ctx.compare([c for c in cs.cases if c.kind != 'hist'], res, ['verdict', 'err', 'ev3'], nontrivial=lambda c, mo: True)
+    ctx.compare([c for c in cs.cases if c.kind == 'hist'], res, ['out'])
     run_sequences(ctx, fields=('verdict', 'err', 'ev3'))
     # a value of the caller that adds a key to the caller's own map while it is printed, the key read by a later comparison: no model
     # counterpart (the object changes during the call), the three entry points are compared with each other only; every entry point
@@ -769,9 +780,12 @@ def check_C16(ctx):
         cs.eval(t_, o_, fam_)
     # an attribute value whose String() calls Process on the very evaluator that is evaluating it: the diagnostic of the outer call is the outer call's
     for t_ in ['x eq "abc" and k eq 1', 'zz eq 1 or x eq "abc"', 'x co "b"', 'x eq "abc" or zz eq 1', 'zz eq 1 or (x sw "a" and k eq 1)', 'x in ["abc", "q"] and k eq 1', 'k gt "s" or x ew "c"', 'x eq "abcd" and k eq 1',
-               'zz pr or x eq "abcd"', 'n.x eq "abc" and zz.y eq 1', 'x eq "zzz" or k eq 1']:
+               'zz pr or x eq "abcd"', 'n.x eq "abc" and zz.y eq 1', 'x eq "zzz" or k eq 1',
+               # two different list literals in one rule, both reached by the inner calls
+               'x in ["abc", "abcd"] and y in ["q"]', 'y in ["q"] and x in ["abc", "abcd"]', 'x in ["abc", "abcd"] and y in ["zz"] or x in ["abcd", "abc"]', 'x in ["abc"] and k in [1, 2] and y in ["q", "r"]',
+               'not (x in ["zz"]) and y in ["q"] and x in ["abcd", "abc"]']:
         for a_ in (('strsame', b'abc'), ('strsame', b'abcd')):
-            cs.eval(t_, obj({'x': a_, 'k': I(1), 'n': {'x': a_}}), 're-entrant-same-evaluator')
+            cs.eval(t_, obj({'x': a_, 'k': I(1), 'n': {'x': a_}, 'y': S('q')}), 're-entrant-same-evaluator')
     res = ctx.run(cs)
     ctx.compare([c for c in cs.cases if c.kind != 'hist'], res, ['dbg'], scope=accepted)
     ctx.compare([c for c in cs.cases if c.kind == 'hist'], res, ['out'], nontrivial=lambda c, mo: True)
@@ -809,6 +823,8 @@ def check_C16(ctx):
                 break
         if io.get('frame') != '1':
             ctx.violation('an object that contains itself was modified (scenario %d of driver/cyclic.go)' % c.meta['scenario'], [c], impl=io)
+        if io and io.get('repaired') == '0':
+            ctx.violation('after the caller took the self-reference out of its object in place, the diagnostic of the next call still describes the old value (scenario %d of driver/cyclic.go)' % c.meta['scenario'], [c], impl=io)
     ctx.crashes = [cr for cr in ctx.crashes if not (cr[0] == 'impl' and cr[4] in cyc.by_id)]
     spec_violations(ctx, 'LastDebugErr')
     for c in cs.cases:
@@ -1065,6 +1081,8 @@ def check_C01(ctx):
         groups.append((c, q_, None, None, {k.decode(): True for k, _ in o_[1]}))
     # non-ASCII text early in the rule, nil / empty object (harness/scale.py): compound vs its comparisons evaluated alone
     struct_groups = []
+    for (t_, o_, fam_) in scale.sibling_folds(ctx):
+        cs.eval(t_, o_, fam_)
     for (t_, o_, fam_, m_) in scale.nonascii_prefix(ctx) + scale.nil_object(ctx) + scale.path_reuse(ctx) + scale.escape_tails(ctx) + scale.repeated_groups(ctx):
         c_ = cs.eval(t_, o_, fam_)
         if m_ and len(m_[0]) > 0:
@@ -1341,6 +1359,13 @@ def check_C17(ctx):
             add(B_, A_, 'zz pr', o_, 'law-paren-literals')
             add('(%s)' % A_, '(%s)' % B_, '(k eq 1)', o_, 'law-paren-literals')
             add('(%s)' % B_, '(%s)' % A_, '(zz pr)', o_, 'law-paren-literals')
+    # an operand repeated inside a neighbouring group whose other operand fails (absorption must not skip it); a single `in` as the whole rule
+    for (L_, grp_, o_) in scale.absorption_operands(ctx):
+        add(L_, grp_, 'k eq 1', o_, 'law-absorption')
+        add(grp_, L_, 'zz pr', o_, 'law-absorption')
+    for A_ in ['x in [1, 2, 3]', 'x in [1.5, 2.5]', 'x in ["a", "b"]', 'x eq 2', 'x pr']:
+        for a_ in (F(2.5), F(2.0), I(2), S('a'), S('A'), F(float('nan')), ('i64', 3)):
+            add(A_, 'k eq 1', 'zz pr', obj({'x': a_, 'k': I(1)}), 'law-whole-rule')
     # an operand next to its own negation, the operand failing / undecided / panicking
     for A_ in ['x gt true', 'k gt null', 'zz eq 1', 't pr', 'k eq 1', 'p eq "a"', 'x in [99999999999999999999]', 'k co 1']:
         for C_ in ('k eq 1', 'zz pr', 'k gt null'):
@@ -1462,7 +1487,7 @@ def check_C05(ctx):
     for t_ in bad_texts:
         o1_, o2_ = obj({'x': I(1), 'y': I(2), 'z': I(3)}), obj({'x': I(0), 'y': I(5)})
         hist_cases.append(cs.hist(t_, [('p', o1_), ('r',), ('p', o1_), ('d',), ('p', o2_), ('r',), ('r',), ('p', o1_)], 'malformed-history'))
-        for other in ('x eq 1', 'x eq', 'y eq 2 or x eq 1'):
+        for other in ('x eq 1', 'x eq', 'y eq 2 or x eq 1', 'a b zz', '(x eq 1'):
             il_cases.append(cs.simple('ileave', '%s %s %s' % (hx(t_), hx(other), val_sx(o1_)), 'interleaved-evaluators', a=t_, b=other))
             il_cases.append(cs.simple('ileave', '%s %s %s' % (hx(other), hx(t_), val_sx(o1_)), 'interleaved-evaluators', a=other, b=t_))
     res = ctx.run(cs)
@@ -1475,6 +1500,10 @@ def check_C05(ctx):
             return False
     ctx.compare([c for c in cs.cases if c.kind in ('hist', 'ileave')], res, ['out'])
     spec_violations(ctx, 'evaluators of malformed texts')
+    for c in il_cases:
+        io = res.impl.get(c.id)
+        if io and io.get('ilt') == '0':
+            ctx.violation('the text of the error of an evaluator changes when another evaluator (of another malformed text) is created before it is used', [c], impl=io)
     ctx.compare(mode_cases, res, ['lexok', 'accept'])
     for c in mode_cases:
         io = res.impl.get(c.id)
@@ -1567,7 +1596,7 @@ def check_C20(ctx):
 
 # ----------------------------------------------------------------------------
 HOSTILE_STRINGS = [S(b'\x80' * 100), S(b'\xbf' * 65), S(b'\xff' * 70), S('\u00e9' * 40), S('a' * 63 + '\u00e9' + 'b' * 10), S('x' * 300), S(b'a' * 64 + b'\xc3'), S(b'\xe3\x81' * 40), S('\U0001f600' * 20), S(b'\x00' * 70)]
-HOSTILE = HOSTILE_STRINGS + [('strpanic',), ('strnilptr',), ('strselfpanic',), ('strpanicinvop',), ('strpanicinvopw',), ('nilmap',), ('nil',), F(float('nan')), F(float('inf')), F(float('-inf'))] + [('o', t) for t in list(range(21)) + [22, 23, 24, 25, 26, 27, 29, 30, 31, 32, 33, 34, 35, 36, 37, 38, 39, 40, 41, 42, 43, 44, 45, 46, 47, 48, 49, 50, 51, 52, 53, 54, 55, 56, 57, 58, 59]] + \
+HOSTILE = HOSTILE_STRINGS + [('strpanic',), ('strnilptr',), ('strselfpanic',), ('strpanicinvop',), ('strpanicinvopw',), ('nilmap',), ('nil',), F(float('nan')), F(float('inf')), F(float('-inf'))] + [('o', t) for t in list(range(21)) + [22, 23, 24, 25, 26, 27, 29, 30, 31, 32, 33, 34, 35, 36, 37, 38, 39, 40, 41, 42, 43, 44, 45, 46, 47, 48, 49, 50, 51, 52, 53, 54, 55, 56, 57, 58, 59, 60, 61, 62, 63]] + \
           [('str', b'abc'), ('strptr', b'1.0.0'), ('m', [(b'y', ('strpanic',))]), ('m', [(b'y', ('o', 3))]), ('strsame', b'abc'), ('strsame', b'abcd'), ('strreent', b'abc'), ('strtm', b'abc')]
 
 def check_C07(ctx):
@@ -1691,6 +1720,11 @@ def check_C11(ctx):
     for text, common, probes in [('tier eq "gold" or active eq true', obj({'tier': S('silver'), 'active': ('b', True)}), [obj({'active': ('b', True)}), obj({'tier': I(5), 'active': ('b', True)}), obj({'tier': S('gold')})]),
                                  ('a.b eq 1 or ok eq true', obj({'a': {'b': I(2)}, 'ok': ('b', True)}), [obj({'a': I(5), 'ok': ('b', True)}), obj({'ok': ('b', True)}), obj({'a': {'b': I(1)}})]),
                                  ('x gt 0 and y lt 10', obj({'x': I(1), 'y': I(50)}), [obj({'y': I(50)}), obj({'x': S('s'), 'y': I(50)}), obj({'x': I(1), 'y': I(5)})]),
+                                 ('a.b eq 1 and y lt 10', obj({'a': {'b': I(1)}, 'y': I(50)}), [obj({'a': I(5), 'y': I(50)}), obj({'a': I(5), 'y': I(5)}), obj({'a': {'b': I(1)}, 'y': I(5)}), obj({'a': S('s'), 'y': I(50)})]),
+                                 ('x gt true and y lt 10', obj({'x': ('b', True), 'y': I(5)}), [obj({'x': I(1), 'y': I(50)})]),
+                                 ('a.b eq 1 and c eq "x"', obj({'a': {'b': I(1)}, 'c': S('y')}), [obj({'a': I(5), 'c': S('y')}), obj({'a': I(5), 'c': S('x')}), obj({'a': ('strpanic',), 'c': S('y')})]),
+                                 ('not (a.b eq 1 and c pr)', obj({'a': {'b': I(1)}}), [obj({'a': I(5)}), obj({'a': I(5), 'c': I(1)})]),
+                                 ('a gt true and c eq null', obj({'a': ('b', True), 'c': I(1)}), [obj({'a': I(1), 'c': I(1)}), obj({'a': I(1)})]),
                                  ('x gt null or y eq 1', obj({'y': I(1)}), [obj({'y': I(1)}), obj({})])]:
         n_ = 5000 if ctx.quick else 70000
         ops = [('p', common)] * n_ + [('p', pr_) for pr_ in probes] + [('d',)] + [('p', common)] * 10 + [('p', pr_) for pr_ in probes] + [('d',)]
@@ -1882,6 +1916,8 @@ def check_C13(ctx):
                 break
         if io.get('frame') != '1':
             ctx.violation('an object that contains itself was modified (scenario %d of driver/cyclic.go)' % c.meta['scenario'], [c], impl=io)
+        if io and io.get('repaired') == '0':
+            ctx.violation('after the caller took the self-reference out of its object in place, the diagnostic of the next call still describes the old value (scenario %d of driver/cyclic.go)' % c.meta['scenario'], [c], impl=io)
     ctx.crashes = [cr for cr in ctx.crashes if not (cr[0] == 'impl' and cr[4] in cyc.by_id)]
     ctx.extra['not_modelled'] = 'aliasing through values retained by a diagnostic (kept, never written)'
     spread_samples(ctx, cs, res)
@@ -1972,7 +2008,7 @@ CHECKS.update({'C12': check_C12})
 
 # ----------------------------------------------------------------------------
 ATTACHED = {0: '42', 1: 'true', 2: 'null', 3: '[1,"a"]', 4: '{"a":"x","b":1}', 5: '1.5', 6: None, 7: None, 8: None, 9: None,
-            10: '{}', 11: '[1,2]', 12: None, 13: '{"A":2}', 14: '"YWI="', 15: '9223372036854775807', 16: '1e+21', 17: '{}', 18: 'null', 19: '{}', 20: '{}', 21: '{"a":1}', 22: '{"b":2,"c":"x"}', 23: '{"b":2}'}
+            10: '{}', 11: '[1,2]', 12: None, 13: '{"A":2}', 14: '"YWI="', 15: '9223372036854775807', 16: '1e+21', 17: '{}', 18: 'null', 19: '{}', 20: '{}', 21: '{"a":1}', 22: '{"b":2,"c":"x"}', 23: '{"b":2}', 24: None, 25: None, 26: None, 27: None, 28: None}
 NERR_KEYS = ['ctx', 'ctx', 'attr_path', 'operation', 'object_path_operand', 'rule_operand', 'err', 'msg', 'a', 'b', 'k<&>', 'K', 'é', '', 'z"q', 'x\ny']
 NERR_TEXTS = ['boom', '', 'ratio above 100%', '%s and %d and %v', '100%% sure %!s(MISSING)', 'read failed: unexpected EOF', 'strconv.ParseInt: parsing "x": invalid syntax', 'Operand not present', 'a "quoted" <text> & more', 'tab\there', 'nl\n', 'é x', 'ctl\x01\x08\x0c\x1f\x7f', 'slash/\\']
 
@@ -2047,6 +2083,14 @@ def check_C19(ctx):
                     msgs = ['m%d' % i for i in range(depth)]
                     body = '%s (%s) (%s)' % (hx('boom'), ' '.join(hx(m) for m in msgs), ' '.join(ops))
                     cs.simple('nerr', body, 'nerr-nested-values', cause='boom', msgs=msgs, ops=ops)
+    # attached values that contain the chain they are attached to / contain themselves / refuse to be encoded by their own method:
+    # Error() gives the plain text (and returns)
+    for tag_ in (24, 25, 26, 27, 28):
+        for depth in (1, 2, 3):
+            msgs = ['m%d' % i for i in range(depth)]
+            ops = ['(set 0 (%s (v %d none)))' % (hx('wrapped_by'), tag_), '(error %d)' % (depth - 1), '(error 0)', '(orig %d)' % (depth - 1), '(set %d (%s (s %s)))' % (depth - 1, hx('k'), hx('v')), '(error %d)' % (depth - 1), '(error %d)' % (depth - 1)]
+            body = '%s (%s) (%s)' % (hx('boom'), ' '.join(hx(m) for m in msgs), ' '.join(ops))
+            cs.simple('nerr', body, 'nerr-self-containing', cause='boom', msgs=msgs, ops=ops)
     for cause_ in ('boom (slice)', 'boom (formatter)', 'a "q" (formatter)', '100% (slice)'):
         for depth in (1, 2, 3, 9):
             for bad in (False, True):
